@@ -56,6 +56,7 @@ Inductive value : Type :=
 | VInt (z : Z)
 | VBool (b : bool)
 | VStr (s : list Z)
+| VEmptyBytes                               (* a non-nil []byte of length 0 (what decoding a present, empty Byte String yields); a nil []byte is [VStr []] *)
 | VNil                                      (* nil pointer, nil interface *)
 | VPtr (v : value)                          (* non-nil pointer *)
 | VList (l : list value)
@@ -106,6 +107,7 @@ Fixpoint value_eqb (a b : value) : bool :=
   | VInt x, VInt y => x =? y
   | VBool x, VBool y => Bool.eqb x y
   | VStr x, VStr y => zlist_eqb_s x y
+  | VEmptyBytes, VEmptyBytes => true
   | VNil, VNil => true
   | VPtr x, VPtr y => value_eqb x y
   | VList x, VList y => go x y
